@@ -93,7 +93,7 @@ fi
 
 . "$VERIF/props.sh"
 "$VERIF/bin/simdrive" "${COMMON[@]}" -prop "$ID" -world "$WORLD" -tier "$MODE" -seed "$SEED" \
-  -sites "$SCR/sites.json" -out "$VERIF/evidence/$ID.json" -known "$VERIF/known_findings.json" \
-  -replays "$VERIF/replays" -runs "$RUNS" -budget "$BUDGET" \
+  -sites "$SCR/sites.json" -out "${VERIF_EVIDENCE_DIR:-$VERIF/evidence}/$ID.json" -known "$VERIF/known_findings.json" \
+  -replays "${VERIF_REPLAY_DIR:-$VERIF/replays}" -runs "$RUNS" -budget "$BUDGET" \
   -rule "$(rule_$WORLD)" -assume "$(assume_$WORLD)" -real "$(real_$WORLD)" -stub "$(stub_$WORLD)"
 exit $?
